@@ -433,7 +433,15 @@ def inject(r, t, rule):
             t["devices"].append({"name": "dev_new", "fields": {}})
         d = r.choice(t["devices"])
         lst = list(d["fields"].get("services") or [])
-        lst.insert(r.randint(0, len(lst)), "NoSuchService")
+        missing = "NoSuchService"
+        declared = [sv["name"] for sv in t["services"]]
+        if declared and r.random() < 0.5:
+            # an undeclared name that is a proper part of a declared one (Tele / Telemetry), or contains one
+            base = r.choice(declared)
+            cands = [c for c in (base[:-1], base[1:], base[: max(1, len(base) // 2)], base + "X", "") if c and c not in declared]
+            if cands:
+                missing = r.choice(cands)
+        lst.insert(r.randint(0, len(lst)), missing)
         d["fields"]["services"] = lst
         return t
     return None
@@ -468,6 +476,10 @@ def plugin_trees(r):
     out.append((T([can("Pa", "Nowhere", a)]), "can-unknown-struct"))
     out.append((T([can("Pq", "Nowhere", a, proto="uart")]), "noncan-unknown-struct"))
     out.append((T([can("Pa", "Pa", a), can("Pa2", "Pa", b), can("Pb", "Pb", a)]), "three-can-two-equal"))
+    # a binding whose type names a declared ENUM (no struct of that name): still "an unknown struct"
+    ev = {"name": "Pk", "values": [("off", 0), ("on", 1)]}
+    out.append((T([can("Pk", "Pk", a)], enums=[ev]), "can-binding-to-an-enum-name"))
+    out.append((T([can("Pa", "Pa", a), can("Pk", "Pk", b, proto="uart")], enums=[ev]), "noncan-binding-to-an-enum-name"))
     # sizes 57..72 with the excess in different places
     total = r.randint(57, 72)
     where = r.choice(["scalar", "array", "enum", "nested", "two-scalars", "array-of-structs"])
